@@ -17,7 +17,7 @@ DRIVER = "FileTokens"
 RULE = ("file-token engine: 1-3 real CounterToken instances + schedulers on one directory, totals 1-4, requests 1-total, "
         "<= 6 jobs (job dependencies, a private process-level token to force aborted starts, failing jobs), random schedules with "
         "delayed/reordered file-system events and watcher reclaims; fault classes none / scheduler dropped (and restarted) while "
-        "holding / reader between create and write / watcher deleting between is_file and unlink of a release; non-trivial = >= 2 schedulers, >= 2 jobs on the file token and at least one "
+        "holding (the model's `drop`: also what a scheduler leaving its experiment block while a holder runs amounts to; real-process scenario exit-with-running-holder) / reader between create and write / watcher deleting between is_file and unlink of a release; non-trivial = >= 2 schedulers, >= 2 jobs on the file token and at least one "
         "stale recount or failed acquisition")
 FAULT_CLASSES = [({}, 0.4), ({"drop": True, "restart": True}, 0.2), ({"race": True}, 0.1), ({"racedel": True}, 0.1),
                  ({"drop": True, "restart": True, "race": True, "racedel": True}, 0.2)]
@@ -310,6 +310,17 @@ def replay_run(ctx, prop, obj):
     rc = 0
     for f in obj.get("failures", []):
         c = f["case"]
+        if c.get("scenario") == "exit-with-running-holder":
+            sub = common.Ctx(prop, ctx.tier, ctx.seed)
+            try:
+                exit_holder_scenario(sub, prop, [(c["total"], c["holders"], c["mode"], c["dur"])])
+            finally:
+                sub.cleanup()
+            print("replay:", [m["what"][:300] for m in sub.monitor_failures] or "no failure on this tree")
+            if sub.monitor_failures:
+                rc = 1
+                print(f"VIOLATION property={prop} replay=(replayed)")
+            continue
         if c.get("scenario") == "recreate-total":
             sub = common.Ctx(prop, ctx.tier, ctx.seed)
             try:
@@ -567,6 +578,189 @@ def recreate_scenario(ctx, prop, variants=None, timeout=60):
     return res
 
 
+_EXIT_P1_SRC = '''import sys, os, logging, json, time
+from pathlib import Path
+args = json.loads(sys.argv[1])
+sys.path.insert(0, args["pkg"])
+logging.basicConfig(level=logging.CRITICAL)
+from experimaestro import experiment
+from xvtokpkg.tasks import Hold
+
+
+class Boom(Exception):
+    pass
+
+
+def started():
+    p = Path(args["log"])
+    return sum(1 for l in p.read_text().splitlines() if l.startswith("S ")) if p.exists() else 0
+
+
+try:
+    with experiment(Path(args["ws"]), "first", port=-1) as xp:
+        xp.setenv("PYTHONPATH", os.pathsep.join([args["pkg"]] + ([os.environ["PYTHONPATH"]] if os.environ.get("PYTHONPATH") else [])))
+        token = xp.token("slots", args["total"])
+        for i in range(args["holders"]):
+            token(1, Hold(x=i, count=1, log=Path(args["log"]), dur=args["dur"])).submit()
+        t0 = time.time()
+        while started() < args["holders"] and time.time() - t0 < 40:
+            time.sleep(0.05)
+        if args["mode"] == "exception":
+            raise Boom("the script fails while its jobs run")   # the block is left without waiting
+except Boom:
+    pass
+print("LEFT", flush=True)
+time.sleep(args["dur"] + 1.0)     # the script goes on after the experiment
+print("END", flush=True)
+'''
+
+_EXIT_P2_SRC = '''import sys, os, logging, json
+from pathlib import Path
+args = json.loads(sys.argv[1])
+sys.path.insert(0, args["pkg"])
+logging.basicConfig(level=logging.CRITICAL)
+from experimaestro import experiment
+from xvtokpkg.tasks import Hold
+with experiment(Path(args["ws"]), "second", port=-1) as xp:
+    xp.setenv("PYTHONPATH", os.pathsep.join([args["pkg"]] + ([os.environ["PYTHONPATH"]] if os.environ.get("PYTHONPATH") else [])))
+    token = xp.token("slots", args["total"])
+    token(1, Hold(x=100, count=1, log=Path(args["log"]), dur=0.3)).submit()
+    xp.wait()
+print("FINAL", flush=True)
+'''
+
+
+def _sweep(logf, t0=None):
+    evs = []
+    if logf.exists():
+        for line in logf.read_text().splitlines():
+            kind, x, c, t = line.split()
+            evs.append((float(t), 0 if kind == "E" else 1, int(x), int(c)))
+    evs.sort()
+    t0 = evs[0][0] if evs else 0.0
+    held, who, worst, worst_who, worst_t = 0, set(), 0, [], 0.0
+    for t, kind, x, c in evs:
+        if kind == 1:
+            held += c
+            who.add(x)
+            if held > worst:
+                worst, worst_who, worst_t = held, sorted(who), round(t - t0, 2)
+        else:
+            held -= c
+            who.discard(x)
+    return {"max_held": worst, "together": worst_who, "at": worst_t, "started": sum(1 for e in evs if e[1] == 1),
+            "intervals": [[x, round(t - t0, 2), "start" if kind else "end"] for t, kind, x, c in evs]}
+
+
+def _exit_holder_attempt(root, k, total, holders, mode, dur, timeout):
+    import os
+    import signal
+    import subprocess
+    import sys
+    adir = root / f"x{k}"
+    adir.mkdir(parents=True, exist_ok=True)
+    logf = adir / "log.txt"
+    base = {"pkg": str(root / "pkg"), "total": total, "holders": holders, "mode": mode, "dur": dur, "log": str(logf)}
+    env = dict(os.environ, XPM_WORKDIR=str(adir / "xpm"), PYTHONWARNINGS="ignore")
+    tokdir = adir / "xpm" / "tokens" / "slots.counter"
+
+    def spawn(script, ws, outname):
+        out = open(adir / outname, "w")
+        return subprocess.Popen([sys.executable, str(root / script), json.dumps(dict(base, ws=str(adir / ws)))], stdout=out,
+                                stderr=subprocess.DEVNULL, text=True, env=env, start_new_session=True), out
+
+    def lines(name):
+        f = adir / name
+        return f.read_text().splitlines() if f.exists() else []
+
+    def log_count(kind):
+        return sum(1 for l in (logf.read_text().splitlines() if logf.exists() else []) if l.startswith(kind + " "))
+
+    procs = []
+    obs = {"total": total, "holders": holders, "mode": mode}
+    try:
+        p1, o1 = spawn("exit_p1.py", "ws1", "p1.out")
+        procs.append(p1)
+        t_end = time.time() + timeout
+        while log_count("S") < holders and time.time() < t_end and p1.poll() is None:
+            time.sleep(0.05)
+        if log_count("S") < holders:
+            return dict(obs, failed="holders did not start")
+        p2, o2 = spawn("exit_p2.py", "ws2", "p2.out")     # another scheduler process asks the same token while the holder runs
+        procs.append(p2)
+        while "LEFT" not in lines("p1.out") and time.time() < t_end and p1.poll() is None:
+            time.sleep(0.05)
+        time.sleep(0.4)
+        files = sorted(f.name[:8] for f in tokdir.glob("*.token")) if tokdir.exists() else []
+        running = holders - sum(1 for l in (logf.read_text().splitlines() if logf.exists() else []) if l.startswith("E ") and int(l.split()[1]) < 100)
+        p2_running = log_count("S") > holders and not any(l.startswith("E 100 ") for l in logf.read_text().splitlines())
+        obs["sample_after_block_left"] = {"holders_still_running": running, "token_files": len(files), "second_job_running": p2_running}
+        for p in (p2, p1):
+            try:
+                p.wait(timeout=max(1, t_end - time.time()))
+            except subprocess.TimeoutExpired:
+                obs.setdefault("hung", []).append("p2" if p is p2 else "p1")
+    finally:
+        for p in procs:
+            if p.poll() is None:
+                try:
+                    os.killpg(p.pid, signal.SIGKILL)
+                except Exception:
+                    p.kill()
+                p.wait()
+    obs.update(_sweep(logf))
+    return obs
+
+
+def exit_holder_scenario(ctx, prop, variants=None, timeout=90):
+    """`exit-with-running-holder` (= the model's `drop` of a scheduler while its job holds: the token file must stay until the
+    job is gone): real process P1 takes the token for a job of `dur` s and leaves its `with experiment` block (by an
+    exception, or normally) while the job runs; real process P2 asks the same token meanwhile.  Monitors: the merged task-side
+    interval log never exceeds the total; while a holder still runs after the block was left, its token file is on disk."""
+    from pathlib import Path
+    variants = variants or [(1, 1, "exception", 3.0)]
+    root = Path(ctx.tmpdir()) / f"exit-{prop}"
+    pkg = root / "pkg" / "xvtokpkg"
+    pkg.mkdir(parents=True, exist_ok=True)
+    (pkg / "__init__.py").write_text("")
+    (pkg / "tasks.py").write_text(_TASKS_SRC)
+    (root / "exit_p1.py").write_text(_EXIT_P1_SRC)
+    (root / "exit_p2.py").write_text(_EXIT_P2_SRC)
+    res = []
+    for vi, (total, holders, mode, dur) in enumerate(variants):
+        attempts = []
+        for k in range(2):
+            o = _exit_holder_attempt(root, f"{vi}-{k}", total, holders, mode, dur, timeout)
+            attempts.append({kk: vv for kk, vv in o.items() if kk != "intervals"})
+            ctx.evaluations += 1
+            case = {"scenario": "exit-with-running-holder", "total": total, "holders": holders, "mode": mode, "dur": dur, "observed": o}
+            if o.get("failed"):
+                ctx.notes.append(f"exit-with-running-holder {total}/{holders}/{mode}: attempt {k} inconclusive: {o['failed']}")
+                continue
+            how = "by an exception raised in the block" if mode == "exception" else "normally (no explicit wait)"
+            smp = o.get("sample_after_block_left", {})
+            bad = False
+            if o["max_held"] > total:
+                bad = True
+                ctx.monitor_fail("exit-with-running-holder:capacity-exceeded",
+                                 f"process P1 holds the token (total {total}) for {holders} running job(s) and leaves its experiment block {how}; "
+                                 f"process P2 then asks the same token: at t={o['at']}s jobs {o['together']} (100 = P2's) execute together and hold "
+                                 f"{o['max_held']} > total {total}; token files on disk while {smp.get('holders_still_running')} holder(s) still ran: "
+                                 f"{smp.get('token_files')}; task-side intervals {o['intervals']}", case)
+            elif smp.get("holders_still_running", 0) > smp.get("token_files", 0) and not smp.get("second_job_running"):
+                bad = True
+                ctx.monitor_fail("exit-with-running-holder:token-file-gone-while-holder-runs",
+                                 f"process P1 left its experiment block {how} while {smp['holders_still_running']} job(s) holding the token (total {total}) "
+                                 f"still ran: only {smp['token_files']} token file(s) remain on disk, the capacity looks free to every other scheduler; "
+                                 f"task-side intervals {o['intervals']}", case)
+            if bad or not o.get("hung"):
+                break
+            ctx.notes.append(f"exit-with-running-holder {total}/{holders}/{mode}: attempt {k}: {o.get('hung')} did not finish, retried")
+        res.append({"total": total, "holders": holders, "mode": mode, "attempts": attempts})
+    ctx.extra_cov["file_token_exit_with_running_holder"] = res
+    return res
+
+
 # ------------------------------------------------------------------------------------------------ module API
 def prove(ctx):
     """stand-alone use; when chained, add MODULES to the caller's list instead"""
@@ -582,6 +776,8 @@ def prove(ctx):
 def correspond(ctx):
     run(ctx, PROP, 320, 6000)
     recreate_scenario(ctx, PROP, [(1, 2, 5, 0.5)] if ctx.quick() else [(1, 2, 5, 0.6), (2, 3, 5, 0.6), (1, 3, 5, 0.6)])
+    exit_holder_scenario(ctx, PROP, [(1, 1, "exception", 3.0)] if ctx.quick() else
+                         [(1, 1, "exception", 3.0), (2, 2, "exception", 3.0), (1, 1, "normal", 2.0), (2, 1, "exception", 2.5)])
     if not ctx.quick():
         real_runs(ctx, PROP)
 
